@@ -9,6 +9,7 @@
 //!               -> {"ok":[{tag,index,ex_units:[mem,steps],data,cost,initial,remaining,result,logs_hex,..,"direct":{..}}],
 //!                   "order":[[tag,index]..]}
 //!                | {"err":Variant,"chain":[..],"err_msg":..,"order":[..],"machine_cost":[cpu,mem]?}
+//!   batch       {"jobs":[job..]} -> {"results":[result..]}
 //!   apply_eval  {"script":hex,"args":[data_cbor_hex..],"lang","pv":null|n,"costs":[..]|null,"budget":[cpu,mem]|null}
 //!               -> {"cost":[cpu,mem],"result":..,"logs_hex":[..]}
 use pallas_codec::minicbor;
@@ -425,8 +426,25 @@ fn op_apply_eval(job: &J) -> Result<J, String> {
     Ok(out)
 }
 
+/// several jobs on one line (cuts the per-job pipe round trip); every inner job is guarded
+/// on its own, so a panic is still attributed to the job that raised it.
+fn op_batch(job: &J) -> Result<J, String> {
+    let mut results = vec![];
+    for j in job["jobs"].as_array().ok_or("jobs")? {
+        let mut res = match guarded(|| dispatch(j)) {
+            Ok(Ok(v)) => v,
+            Ok(Err(e)) => json!({"harness_error": e}),
+            Err(p) => json!({"panic": p}),
+        };
+        res["id"] = j["id"].clone();
+        results.push(res);
+    }
+    Ok(json!({"results": results}))
+}
+
 fn dispatch(job: &J) -> Result<J, String> {
     match job["op"].as_str().unwrap_or("phase2") {
+        "batch" => op_batch(job),
         "phase2" => op_phase2(job),
         "script" => op_script(job),
         "apply_eval" => op_apply_eval(job),
